@@ -280,3 +280,4 @@ def cmp_pipeline(ctx, drv, mb, q, cr, real_out, family="pipeline"):
                     diffs.append(f"buffer {bi}: bytes differ from the model's quantized data")
     if diffs:
         ctx.disagree(family, _small(rq), diffs[:6], "output differs")
+    return m
